@@ -10,6 +10,18 @@ CHECKS = {
    text="Differential exploration against an independent reference transcription of W3C Appendix D: every generated (chart, event history) is run on the default engine and compared entry by entry (exits, transitions, entries, executed elements, log values, dequeued events, configuration after each microstep, final data). Exploration, not proof: it samples the space densely (thousands of distinct non-trivial cases per quick run, exhaustive over a small-chart bound), shrinks failures, and attributes deviations of the one recorded known finding via an exact quirk model.",
    note="Trusted: the Python reference model (pylib/model.py), the worker's monitor/logger observation, Hypothesis. Fragment: no invoke/delay; integer data below 1e9.",
    technique="property-based differential testing against a reference model (Hypothesis), sharded x16"),
+ 'C02': dict(category='exploration', design_ref='DESIGN.md §4 C02',
+   text="Invariant checking over generated runs: charts are generated freely (target lists not forced to be legal) and kept iff validate() reports no FATAL; after every step of both engines the Rec. 3.11 legality predicate, 'root entered once / never exited', and history soundness (from serialize() at every stable point) are evaluated. Exploration level: dense sampling with shrinking, no exhaustiveness claim.",
+   note="Trusted: legality predicate over the generator's AST, worker observation. Nested-history class excluded by construction (F-C02-1, witness replayed). Generated C machine: see C04.",
+   technique="property-based invariant testing (Hypothesis), validator-filtered generation, both engines"),
+ 'C03': dict(category='exploration', design_ref='DESIGN.md §4 C03',
+   text="Pure differential: the same generated chart and history (including injected failing elements) under the 'large' and 'fast' engines must produce identical monitor callbacks, log lines, events, step() results and configurations. Differences are attributed to the recorded selection findings only when each engine matches its exact deviation model.",
+   note="Trusted: worker observation; reference model only for known-finding attribution. Auto-generated send ids projected away.",
+   technique="differential property-based testing (Hypothesis) large vs fast"),
+ 'C13': dict(category='exploration', design_ref='DESIGN.md §4 C13',
+   text="Pushdown recogniser over the raw monitor callback stream (balanced, well nested, exit/transition/entry phase order, content only inside brackets, nothing but event/stable/completion notices outside microsteps) plus completeness and order against the reference model, on generated charts incl. injected errors, both engines.",
+   note="Trusted: the grammar (derived from test-lifecycle.cpp and the property text), reference model for completeness. Invocation callbacks only covered by C11.",
+   technique="property-based testing with a grammar oracle + reference model (Hypothesis)"),
 }
 NOT_YET = "check not implemented yet in this session (see DESIGN.md §11 for the plan)"
 
